@@ -10,13 +10,19 @@ def rd(f):
 checks = {}
 for f in glob.glob(os.path.join(d, "check_*.txt")):
     lines = open(f).read().strip().splitlines()
+    if f.endswith("_first.txt"):
+        continue
     checks[os.path.basename(f)[6:-4]] = {
         "caught": any(l.startswith("VIOLATION") for l in lines),
         "violations": [l[:300] for l in lines if l.startswith("VIOLATION")][:4],
         "summary": [l for l in lines if l.startswith(prop)][-1:] }
 meta = {"breaks_property": prop, "needs_to_manifest": needs, "note": note,
-        "confirmed_in_scratch_worktree": {"existing_tests_with_change": rd("existing_tests.txt"), "demo_with_change": rd("demo_with.txt")[-3:], "demo_without_change": rd("demo_without.txt")[-2:]},
-        "ran": [f"tools/seedtest.sh {name} /tmp/wt-... {prop} <tier>  (git -C /repo apply patch.diff; ./check {prop} <tier>; git -C /repo checkout -- .)"],
+        "confirmed_in_scratch_worktree": {"existing_tests_with_change": rd("existing_tests.txt"), "full_existing_suite_with_change": [f"{sum(1 for l in rd('existing_tests_full.txt') if l.startswith('ok'))} packages ok, {sum(1 for l in rd('existing_tests_full.txt') if 'FAIL' in l)} FAIL"] if rd("existing_tests_full.txt") else [], "demo_with_change": rd("demo_with.txt")[-3:], "demo_without_change": rd("demo_without.txt")[-2:]},
+        "ran": [f"tools/seedtest_wt.sh {name} /tmp/wt2-... {prop} <tier>  (scratch worktree: go build, existing tests of the touched packages, go test ./... of the whole suite, demo with/without the change; check run with VERIF_REPO pointing at the worktree)", f"tools/mut.sh seeded/{name}/patch.diff {prop} quick  (fresh scratch worktree of /repo HEAD + patch, ./bin/gosym check with VERIF_REPO/VERIF_OUT, worktree removed)"],
         "checks": checks}
+ff = os.path.join(d, "check_quick_first.txt")
+if os.path.exists(ff):
+    lines = open(ff).read().strip().splitlines()
+    meta["first_run_before_strengthening"] = {"caught": any(l.startswith("VIOLATION") for l in lines), "summary": [l for l in lines if l.startswith(prop)][-1:]}
 json.dump(meta, open(os.path.join(d, "meta.json"), "w"), indent=1)
 print(name, {k: v["caught"] for k, v in checks.items()})
